@@ -180,7 +180,14 @@ def run(prop_id, tier, seed, replay=None):
     if replay:
         return do_replay(mod, prop_id, replay)
 
-    # ---------------- P
+    # ---------------- translation (regenerate Lean tables from /repo), then P
+    pregen_note = None
+    if hasattr(mod, "pregen"):
+        try:
+            pregen_note = mod.pregen()
+        except Exception as e:
+            traceback.print_exc()
+            pregen_note = "pregen failed: %r" % (e,)
     P = leanproj.proof_part(prop_id, tier, getattr(mod, "EXTRA_TARGETS", ()))
     use_model = P["driver_ok"]
 
@@ -236,6 +243,8 @@ def run(prop_id, tier, seed, replay=None):
         extra_cov = ex.get("coverage", {})
         total["n"] += ex.get("evaluations", 0)
 
+    if pregen_note and str(pregen_note).startswith("pregen failed"):
+        tie_failures.append(str(pregen_note))
     if crashes:
         print("INFRA-ERROR: worker crashed:\n" + crashes[0]["crash"])
         write_evidence(mod, prop_id, tier, seed, P, total, extra_cov, 0, [], t0, note="worker crash")
